@@ -322,10 +322,13 @@ def St.param (s : St) (i : Issue) : Int :=
   | some v => v
   | none => defaultParam i
 
-def St.balOf (s : St) (a : Bytes) : Nat :=
-  match s.bal.get a with
+/-- Balance lookup (an account without state has balance 0). -/
+def bget (m : AMap Bytes Nat) (a : Bytes) : Nat :=
+  match m.get a with
   | some b => b
   | none => 0
+
+def St.balOf (s : St) (a : Bytes) : Nat := bget s.bal a
 
 inductive Res
   | ok | insufficient | lessTime | tooSmall | mustStakeVote | mustStakeUnstake | exceed
@@ -337,11 +340,9 @@ deriving DecidableEq, Repr
 /-- state.SendBalance: nothing between one account and itself; refused when the sender lacks the amount. -/
 def sendBalance (bal : AMap Bytes Nat) (src dst : Bytes) (amt : Nat) : Option (AMap Bytes Nat) :=
   if src = dst then some bal else
-  let b := match bal.get src with | some x => x | none => 0
-  if b < amt then none else
-  let bal1 := bal.set src (b - amt)
-  let d := match bal1.get dst with | some x => x | none => 0
-  some (bal1.set dst (d + amt))
+  if bget bal src < amt then none else
+  let bal1 := bal.set src (bget bal src - amt)
+  some (bal1.set dst (bget bal1 dst + amt))
 
 /-! ### Voting-power rank (vprt.go) -/
 
@@ -443,12 +444,16 @@ def subVotes (t : AMap (Issue × Bytes) Int) (i : Issue) (amt : Nat) : List Byte
     | none => none
     | some x => subVotes (t.set (i, c) (x - amt)) i amt cs
 
+/-- Lookup in a loaded tally (`map[string]*big.Int`), 0 for a missing key. -/
+def iget (t : AMap (Issue × Bytes) Int) (k : Issue × Bytes) : Int :=
+  match t.get k with
+  | some x => x
+  | none => 0
+
 /-- VoteResult.AddVote (a missing key starts at 0). -/
 def addVotes (t : AMap (Issue × Bytes) Int) (i : Issue) (amt : Nat) : List Bytes → AMap (Issue × Bytes) Int
   | [] => t
-  | c :: cs =>
-    let x := match t.get (i, c) with | some x => x | none => 0
-    addVotes (t.set (i, c) (x + amt)) i amt cs
+  | c :: cs => addVotes (t.set (i, c) (iget t (i, c) + amt)) i amt cs
 
 def tallyLoad (t : AMap (Issue × Bytes) Nat) : AMap (Issue × Bytes) Int := t.map fun e => (e.1, (e.2 : Int))
 /-- buildVoteList: `Amount: v.Bytes()` — the absolute value. -/
@@ -550,16 +555,35 @@ def St.stakedAmount (s : St) (a : Bytes) : Nat :=
 
 def minStake (s : St) : Int := s.param .stakingMin
 
-/-- ValidateSystemTx(stake) + stakeCmd.run. -/
-def stake (s : St) (a : Bytes) (h amt : Nat) : Res × St :=
-  if s.balOf a < amt then (.insufficient, s) else
-  let rec? := s.stakes.get a
-  if (match rec? with | some st => decide (st.when + stakingDelay > h) | none => false) then (.lessTime, s) else
-  let cur := s.stakedAmount a
-  if minStake s > ((cur + amt : Nat) : Int) then (.tooSmall, s) else
+/-- validateForStaking: a staking *record* exists (`GetAmount() != nil`) and its delay has not expired. -/
+def St.stakeLocked (s : St) (a : Bytes) (h : Nat) : Bool :=
+  match s.stakes.get a with
+  | some st => decide (st.when + stakingDelay > h)
+  | none => false
+
+def St.stakedWhen (s : St) (a : Bytes) : Nat :=
+  match s.stakes.get a with
+  | some st => st.when
+  | none => 0
+
+/-- ValidateSystemTx(stake): balance, then validateForStaking (delay, minimum). `none`: passed. -/
+def stakeCheck (s : St) (a : Bytes) (h amt : Nat) : Option Res :=
+  if s.balOf a < amt then some .insufficient
+  else if s.stakeLocked a h then some .lessTime
+  else if minStake s > ((s.stakedAmount a + amt : Nat) : Int) then some .tooSmall
+  else none
+
+/-- stakeCmd.run: record (amount added, When = block number), total, balance. -/
+def stakeRun (s : St) (a : Bytes) (h amt : Nat) : Res × St :=
   match sendBalance s.bal a sysAddr amt with
   | none => (.insufficient, s)
-  | some bal => (.ok, { s with stakes := s.stakes.set a ⟨cur + amt, h⟩, total := s.total + amt, bal := bal })
+  | some bal =>
+    (.ok, { s with stakes := s.stakes.set a ⟨s.stakedAmount a + amt, h⟩, total := s.total + amt, bal := bal })
+
+def stake (s : St) (a : Bytes) (h amt : Nat) : Res × St :=
+  match stakeCheck s a h amt with
+  | some r => (r, s)
+  | none => stakeRun s a h amt
 
 /-- refreshAllVote: every issue in catalog order whose recorded amount exceeds the new stake is shrunk. -/
 def refreshVotes (a : Bytes) (staked : Nat) : List Issue → St → Option St
@@ -574,38 +598,52 @@ def refreshVotes (a : Bytes) (staked : Nat) : List Issue → St → Option St
       | none => none
       | some s' => refreshVotes a staked is s'
 
-/-- ValidateSystemTx(unstake) + unstakeCmd.run. -/
-def unstake (s : St) (a : Bytes) (h amt : Nat) : Res × St :=
-  match s.stakes.get a with
-  | none => (.mustStakeUnstake, s)
-  | some st =>
-    if st.amount = 0 then (.mustStakeUnstake, s) else
-    if st.amount < amt then (.exceed, s) else
-    if st.when + stakingDelay > h then (.lessTime, s) else
-    let toBe := st.amount - amt
-    if toBe ≠ 0 ∧ minStake s > (toBe : Int) then (.tooSmall, s) else
-    let s1 := { s with stakes := s.stakes.set a ⟨toBe, h⟩ }
-    match refreshVotes a toBe catalog s1 with
-    | none => (.panic, s)
-    | some s2 =>
-      let s3 := { s2 with total := ((s2.total : Int) - amt).natAbs }
-      match sendBalance s3.bal sysAddr a amt with
-      | none => (.insufficient, s)
-      | some bal => (.ok, { s3 with bal := bal })
+/-- ValidateSystemTx(unstake) = validateForUnstaking: staked at all, not more than staked, delay, minimum. -/
+def unstakeCheck (s : St) (a : Bytes) (h amt : Nat) : Option Res :=
+  if s.stakedAmount a = 0 then some .mustStakeUnstake
+  else if s.stakedAmount a < amt then some .exceed
+  else if s.stakedWhen a + stakingDelay > h then some .lessTime
+  else if s.stakedAmount a - amt ≠ 0 ∧ minStake s > ((s.stakedAmount a - amt : Nat) : Int) then some .tooSmall
+  else none
 
-/-- validateForVote + newVoteCmd + voteCmd.run for a prepared candidate list. -/
+/-- The state handed to `refreshAllVote`: the record already lowered and re-dated. -/
+def unstakeMid (s : St) (a : Bytes) (h amt : Nat) : St :=
+  { s with stakes := s.stakes.set a ⟨s.stakedAmount a - amt, h⟩ }
+
+/-- unstakeCmd.run: record, refreshAllVote, subTotal, balance. -/
+def unstakeRun (s : St) (a : Bytes) (h amt : Nat) : Res × St :=
+  match refreshVotes a (s.stakedAmount a - amt) catalog (unstakeMid s a h amt) with
+  | none => (.panic, s)
+  | some s2 =>
+    match sendBalance s2.bal sysAddr a amt with
+    | none => (.insufficient, s)
+    | some bal => (.ok, { s2 with total := ((s2.total : Int) - amt).natAbs, bal := bal })
+
+def unstake (s : St) (a : Bytes) (h amt : Nat) : Res × St :=
+  match unstakeCheck s a h amt with
+  | some r => (r, s)
+  | none => unstakeRun s a h amt
+
+/-- validateForVote: staked at all; a vote *record* for the issue exists and the delay has not expired. -/
+def voteCheck (s : St) (i : Issue) (a : Bytes) (h : Nat) : Option Res :=
+  if s.stakedAmount a = 0 then some .mustStakeVote
+  else if (s.voteOf i a).isSome ∧ s.stakedWhen a + votingDelay > h then some .lessTime
+  else none
+
+/-- The state after updateStaking (When = block number) and updateVote. -/
+def voteMid (s : St) (i : Issue) (a : Bytes) (h : Nat) (cands : List Bytes) : St :=
+  { s with stakes := s.stakes.set a ⟨s.stakedAmount a, h⟩, votes := setVote s.votes i a ⟨cands, s.stakedAmount a⟩ }
+
+/-- newVoteCmd + voteCmd.run for a prepared candidate list. -/
+def voteRun (s : St) (i : Issue) (a : Bytes) (h : Nat) (cands : List Bytes) : Res × St :=
+  match revote (voteMid s i a h cands) i a (s.voteOf i a) ⟨cands, s.stakedAmount a⟩ with
+  | none => (.panic, s)
+  | some s2 => (.ok, s2)
+
 def castVote (s : St) (i : Issue) (a : Bytes) (h : Nat) (cands : List Bytes) : Res × St :=
-  match s.stakes.get a with
-  | none => (.mustStakeVote, s)
-  | some st =>
-    if st.amount = 0 then (.mustStakeVote, s) else
-    let old := s.voteOf i a
-    if old.isSome ∧ st.when + votingDelay > h then (.lessTime, s) else
-    let new : Vote := ⟨cands, st.amount⟩
-    let s1 := { s with stakes := s.stakes.set a ⟨st.amount, h⟩, votes := setVote s.votes i a new }
-    match revote s1 i a old new with
-    | none => (.panic, s)
-    | some s2 => (.ok, s2)
+  match voteCheck s i a h with
+  | some r => (r, s)
+  | none => voteRun s i a h cands
 
 /-- `Candidate[offset : offset+39]` for every offset: the 39-byte chunks of the concatenated candidates. -/
 def chunks39 : Nat → Bytes → List Bytes
@@ -636,6 +674,12 @@ def validById (i : Issue) (n : Nat) : Bool :=
   | .bp => true
   | _ => decide (n ≤ maxAER)
 
+/-- A candidate of a parameter vote that is a number outside the parameter's range. -/
+def daoArgBad (i : Issue) (c : Bytes) : Bool :=
+  match parseDec c with
+  | some n => !validById i n
+  | none => true
+
 /-- v1voteDAO: `args` are the JSON string arguments after the id (MultipleChoice = 1, no candidate
 list, no block range for the four built-in proposals). No argument at all is refused since repair 9f771520
 (before it: `Args[1]` panicked in newVoteCmd after validation had passed). -/
@@ -647,7 +691,7 @@ def voteDAO (s : St) (a : Bytes) (h : Nat) (id : String) (args : List Bytes) : R
     if args.length < 1 then (.daoTooFew, s) else
     if args.length > 1 then (.daoTooMany, s) else
     if args.any (fun c => (parseDec c).isNone) then (.daoBadNumber, s) else
-    if args.any (fun c => match parseDec c with | some n => !validById i n | none => true) then (.daoBadRange, s) else
+    if args.any (daoArgBad i) then (.daoBadRange, s) else
     castVote s i a h args
 
 /-! ### Plain transfers -/
@@ -662,12 +706,18 @@ def transfer (s : St) (src dst : Bytes) (amt : Nat) : Res × St :=
 
 /-! ### Names (name contract) -/
 
-/-- name.GetAddress: addresses and special accounts resolve to themselves, a name to its *committed* destination. -/
-def St.resolve (s : St) (n : Bytes) : Bytes :=
-  if n.length = 33 ∨ isSpecial n then n else
+/-- name.getAddress: the *committed* destination of a name (`GetInitialData`), empty when unbound. -/
+def St.committedDest (s : St) (n : Bytes) : Bytes :=
   match s.namesInit.get n with
   | some r => r.dest
   | none => []
+
+/-- name.getOwner(…, useInitial = false): the owner in the buffered view. -/
+def St.ownerOf (s : St) (n : Bytes) : Option Bytes := (s.names.get n).map (·.owner)
+
+/-- name.GetAddress: addresses and special accounts resolve to themselves, a name to its committed destination. -/
+def St.resolve (s : St) (n : Bytes) : Bytes :=
+  if n.length = 33 ∨ isSpecial n then n else s.committedDest n
 
 /-- The account that receives name payments: the contract owner once set, else `aergo.name`. -/
 def St.nameState (s : St) : Bytes :=
@@ -691,14 +741,11 @@ account it resolves to, `to` the decoded destination argument. -/
 def nameUpdate (s : St) (txAcc sender : Bytes) (name to : Bytes) (amt : Nat) : Res × St :=
   if s.balOf sender < amt then (.insufficient, s) else
   if namePrice s > (amt : Int) then (.tooSmall, s) else
-  let owner : Option Bytes := (s.names.get name).map (·.owner)
-  if txAcc ≠ name ∧ some txAcc ≠ owner then (.ownerMismatch, s) else
-  let cur : Bytes := match s.namesInit.get name with | some r => r.dest | none => []
-  if cur.length ≤ 12 then (.notCreated, s) else
-  let dest := s.resolve to
+  if txAcc ≠ name ∧ some txAcc ≠ s.ownerOf name then (.ownerMismatch, s) else
+  if (s.committedDest name).length ≤ 12 then (.notCreated, s) else
   match sendBalance s.bal sender s.nameState amt with
   | none => (.insufficient, s)
-  | some bal => (.ok, { s with bal := bal, names := s.names.set name ⟨dest, dest⟩ })
+  | some bal => (.ok, { s with bal := bal, names := s.names.set name ⟨s.resolve to, s.resolve to⟩ })
 
 /-- v1setOwner (sender ≠ new owner; the case sender = owner is DESIGN §5 lead 11, property C01). -/
 def nameSetOwner (s : St) (owner : Bytes) : Res × St :=
